@@ -1,5 +1,6 @@
 (* C15 — the automated motif equation equals the exact bond-percolation expectation.
-   Property theorems only; each is closed by [exact] of a lemma of Proofs/AutoEqP.v / AutoEqR.v.
+   Property theorems only; each is closed by [exact] of a lemma of Proofs/AutoEqP.v / AutoEqR.v (reflection) /
+   AutoEqW.v AutoEqC.v AutoEqG.v AutoEqE.v (the general identity, growth phase).
 
    Objects (Model/AutoEq.v):
      auto_q g r phi u        the model of AutomatedEquation.automated_equation on a fresh evaluator, in Q
